@@ -36,25 +36,31 @@ pub fn profile(t: Tier) -> Profile {
     long(p, t)
 }
 
+/// the fee only exists below the threshold: bias the threshold towards 1
+fn cfgs() -> BoxedStrategy<Cfg> {
+    (cfg_strategy(), 0u8..4)
+        .prop_map(|(mut c, k)| {
+            if k > 0 && c.threshold.atomics() < ONE * 9 / 10 {
+                c.threshold = Dec::new(ONE);
+            }
+            c
+        })
+        .boxed()
+}
+
 pub fn prop() -> HistProp {
     HistProp {
         id: ID,
         rule: "generated short histories (bond both tokens, slash 0.1%-50%, one or more fee-path operations: bond, unbond, convert in both directions, with amounts from 1 unit to the whole balance / pool, fee and threshold from grids and random values); the credited result is compared with the exact no-fee and maximal-fee results and the post-state peg gap is bounded; non-trivial = a fee was actually charged; classes record which cap bound; distinct by hash of the case",
         profile,
-        cfgs: || {
-            // the fee only exists below the threshold: bias the threshold towards 1
-            (cfg_strategy(), 0u8..4).prop_map(|(mut c, k)| {
-                if k > 0 && c.threshold.atomics() < ONE * 9 / 10 {
-                    c.threshold = Dec::new(ONE);
-                }
-                c
-            }).boxed()
-        },
+        cfgs,
         quick: 12000,
         thorough: 300000,
         mk: |_, _, _| Box::new(C05 { nontrivial: false }),
-        extra: None,
+        // whole-pool operations on large non-round pools (the restoring cap is the deciding term there)
+        extra: Some((4, |_| peg_scenario_strategy(cfgs()))),
         many_batches: 0,
+        zero_arrival: 0,
     }
 }
 
@@ -123,7 +129,8 @@ impl Checker for C05 {
             out.label(&format!("fee_charged/{}", path));
         }
         // never past the peg: an operation that starts below the peg leaves backing <= claims + 2
-        if rb < Decimal::one() && o1.bsei_claims() > 0 {
+        // (claims may have dropped to zero: a whole-pool exit must not leave backing behind either)
+        if rb < Decimal::one() {
             let backing = o1.state.total_bond_bsei_amount.u128();
             let claims = o1.bsei_claims();
             if backing > claims + 2 {
